@@ -742,3 +742,48 @@ func withoutSuffix(v ssa.Value) (x ssa.Value, s string, ok bool) {
 	}
 	return nil, "", false
 }
+
+// uncountedExits lists the edges by which a loop can be left other than by
+// exhausting its counter; exits into blocks that end in a no-return call are
+// not exits for this purpose (the line fails there).
+func uncountedExits(g *ssax.Graph, l natLoop) [][2]int {
+	var out [][2]int
+	for _, ex := range loopExits(g, l) {
+		if _, ok := exitIsCounted(g, l, ex[0], ex[1]); ok {
+			continue
+		}
+		// an exit whose every continuation ends in a cut (Fatalf) does not leave the function normally
+		normal := false
+		g.Walk(ssax.Point{Block: ex[1]}, func(i ssa.Instruction, _ []int) ssax.Action { return ssax.Continue }, func(last ssa.Instruction, _ []int) {
+			if _, isRet := last.(*ssa.Return); isRet {
+				normal = true
+			}
+		})
+		if normal {
+			out = append(out, ex)
+		}
+	}
+	return out
+}
+
+// elementLoops returns the loops of g that iterate over seq (or a re-slice of
+// it): their counted exit's bound is len of a value derived from seq.
+func elementLoops(g *ssax.Graph, isSeq func(ssa.Value) bool) []natLoop {
+	var out []natLoop
+	for _, l := range loopsOf(g) {
+		over := false
+		for _, ex := range loopExits(g, l) {
+			ce, ok := exitIsCounted(g, l, ex[0], ex[1])
+			if !ok {
+				continue
+			}
+			if ln, isC := ce.Bound.(*ssa.Call); isC && isBuiltinCall(ln, "len") && ssax.DerivedFrom(ln.Call.Args[0], isSeq, nil) {
+				over = true
+			}
+		}
+		if over {
+			out = append(out, l)
+		}
+	}
+	return out
+}
